@@ -139,6 +139,10 @@ structure Cfg where
   /-- pool: does `close()` end the connections' streams (socket shutdown) BEFORE it joins the workers (the repaired code) -
   so that a worker blocked in a read comes back - or only afterwards (`false`) -/
   closeUnblocks : Bool := true
+  /-- does the accept loop survive an error from `accept()` other than EINTR / EAGAIN - out of descriptors or buffers
+  (EMFILE, ENFILE, ENOBUFS, ENOMEM), an error of one incoming connection (ECONNABORTED, EPROTO, ...) -: logged and retried
+  (the repaired code), or taken for the end of the server (`false`: `accept` raises EOFError, `start` closes the server) -/
+  acceptTough : Bool := true
   deriving DecidableEq, Repr, Inhabited
 
 structure St where
@@ -543,6 +547,9 @@ inductive Op where
   | connectReuse (k j : Nat)
   /-- the blocking `on_disconnect` of client `k` returns -/
   | releaseHook (k : Nat)
+  /-- an event of the environment: the accept loop's `listener.accept()` fails once with an error that is not EINTR / EAGAIN
+  and not the listener being gone -/
+  | acceptFault
   deriving Repr, Inhabited
 
 /-- may the client still speak the protocol -/
@@ -601,6 +608,17 @@ def step (s : St) : Op → Except Err (St × Obs)
        | some s' => .ok (s', .none)
        | none => .error .notModelled)
     else .ok (baseClose s, .none)
+  | .acceptFault =>
+    -- (an event only while the accept thread is in `accept()`)
+    if !canAccept s then .error .valueError
+    -- logged, a moment's pause, the loop goes on
+    else if s.cfg.acceptTough then .ok (s, .none)
+    -- `raise EOFError()` out of `accept`, swallowed by `start`, whose `finally` closes the server
+    else if s.cfg.kind = .pool then
+      (match poolClose s with
+       | some s' => .ok (s', .none)
+       | none => .error .notModelled)
+    else .ok (baseClose s, .none)
 
 /-- run a list of actions; actions outside the alphabet are skipped (they change nothing) -/
 def run (s : St) : List Op → St
@@ -624,9 +642,9 @@ def runObs (s : St) : List Op → List (Option Obs)
 structure Env where
   /-- `zlib.decompress` (`none` = `zlib.error`) -/
   zlib : Bytes → Option Bytes
-  /-- for a decodable payload the model does not classify itself (a reply / exception message, whose
-  `_unbox` / `_unbox_exc` run unguarded; a 3-element frozenset, whose order is the interpreter's; a
-  payload outside the brine model): does dispatching it raise out of `_dispatch` -/
+  /-- for a decodable payload the model does not classify itself (a reply message carrying by-reference packages, whose
+  unboxing talks to the sender; a 3-element frozenset, whose order is the interpreter's; a payload outside the brine
+  model): does dispatching it raise out of `_dispatch` -/
   raises : Bytes → Bool
 
 /-- bit patterns of the doubles 0.0 … 3.0 -/
@@ -656,6 +674,35 @@ def unpack3 : Val → Unpacked
 
 def viaEnv (env : Env) (data : Bytes) : Item := if env.raises data then .bad else .handled
 
+mutual
+/-- does a value contain a by-reference package - a pair whose label is `LABEL_REMOTE_REF` - anywhere (over-approximated:
+`_unbox` only looks through `LABEL_TUPLE` packages): unboxing it makes the receiver ask its peer about the object's class -/
+def hasRemoteRef : Val → Bool
+  | .tuple xs => (match xs with
+                  | [l, _] => numEq l Gen.Srv.labelRemoteRef
+                  | _ => false) || hasRemoteRefL xs
+  | .fset xs => hasRemoteRefL xs
+  | _ => false
+def hasRemoteRefL : List Val → Bool
+  | [] => false
+  | x :: xs => hasRemoteRef x || hasRemoteRefL xs
+end
+
+/-- `*args` of an empty iterable: no arguments -/
+def emptyIter : Val → Bool
+  | .tuple [] => true | .str [] => true | .bytes [] => true | .fset [] => true
+  | _ => false
+
+/-- the arguments of a request that really runs `_handle_close` (and so `_cleanup`): `handler, args = raw_args`, the
+handler number `HANDLE_CLOSE`, and `args` unboxing to nothing (`(LABEL_VALUE, <empty>)` or `(LABEL_TUPLE, ())`); with
+any argument `_handle_close(self, *args)` is a TypeError, answered like every other failing request -/
+def isCloseRequest : Val → Bool
+  | .tuple [h, .tuple [l, v]] =>
+    numEq h Gen.Srv.handleClose &&
+      ((numEq l Gen.Srv.labelValue && emptyIter v) ||
+       (numEq l Gen.Srv.labelTuple && (match v with | .tuple [] => true | _ => false)))
+  | _ => false
+
 /-- one complete, decompressed payload through `_dispatch` -/
 def classifyPayload (env : Env) (data : Bytes) : Item :=
   match Brine.load data with
@@ -665,9 +712,14 @@ def classifyPayload (env : Env) (data : Bytes) : Item :=
     match unpack3 v with
     | .notThree => .bad
     | .unordered => viaEnv env data
-    | .three m _ _ =>
-      if numEq m Gen.Srv.msgRequest then .handled
-      else if numEq m Gen.Srv.msgReply || numEq m Gen.Srv.msgException then viaEnv env data
+    | .three m _ args =>
+      -- a request: answered by the guarded `_dispatch_request` - unless it is the protocol's own goodbye
+      if numEq m Gen.Srv.msgRequest then (if isCloseRequest args then .bye else .handled)
+      -- a response nobody waits for: `_deliver_response` keeps decode failures to itself, `_seq_request_callback` finds no
+      -- callback; an exception message is rebuilt by `vinegar.load` (no round trip), a reply is unboxed - which asks the
+      -- sender about every by-reference object in it: not modelled
+      else if numEq m Gen.Srv.msgException then .handled
+      else if numEq m Gen.Srv.msgReply then (if hasRemoteRef args then viaEnv env data else .handled)
       else .bad
 
 def needsEnvPayload (data : Bytes) : Bool :=
@@ -678,8 +730,8 @@ def needsEnvPayload (data : Bytes) : Bool :=
     match unpack3 v with
     | .notThree => false
     | .unordered => true
-    | .three m _ _ =>
-      !numEq m Gen.Srv.msgRequest && (numEq m Gen.Srv.msgReply || numEq m Gen.Srv.msgException)
+    | .three m _ args =>
+      !numEq m Gen.Srv.msgRequest && !numEq m Gen.Srv.msgException && numEq m Gen.Srv.msgReply && hasRemoteRef args
 
 def classifyFrame (env : Env) (flag : Nat) (data : Bytes) : Item :=
   if flag = 0 then (if data.isEmpty then .empty else classifyPayload env data)
